@@ -59,9 +59,14 @@ func c17GenReload(t *rapid.T) c17ReloadScenario {
 			st.Loadable = true
 			st.Marker = fmt.Sprintf("m%d", i)
 			extra := rapid.SampledFrom([]string{"", "  group_by: [alertname]\n", "  group_wait: 1s\n  routes:\n  - matchers: [a=\"b\"]\n", "  repeat_interval: 1h\n"}).Draw(t, "extra")
-			st.Content = []byte("route:\n  receiver: " + st.Marker + "\n" + extra + "receivers:\n- name: other\n- name: " + st.Marker + "\n")
+			// sometimes a receiver that relies on a built-in default endpoint (no URL of its own, no global override)
+			other := rapid.SampledFrom([]string{"- name: other\n", "- name: other\n  pagerduty_configs:\n  - routing_key: k\n", "- name: other\n  opsgenie_configs:\n  - api_key: k\n"}).Draw(t, "other")
+			st.Content = []byte("route:\n  receiver: " + st.Marker + "\n" + extra + "receivers:\n" + other + "- name: " + st.Marker + "\n")
 		case k < 6:
-			st.Content = []byte(rapid.SampledFrom([]string{"", "   \n", "route: [", "{", "route:\n  receiver: x\n", "receivers: []\n", "\x00", "route:\n  receiver: a\n  continue: true\nreceivers:\n- name: a\n", "global:\n  nosuchfield: 1\nroute:\n  receiver: a\nreceivers:\n- name: a\n"}).Draw(t, "garbage"))
+			st.Content = []byte(rapid.SampledFrom([]string{"", "   \n", "route: [", "{", "route:\n  receiver: x\n", "receivers: []\n", "\x00", "route:\n  receiver: a\n  continue: true\nreceivers:\n- name: a\n", "global:\n  nosuchfield: 1\nroute:\n  receiver: a\nreceivers:\n- name: a\n",
+				// rejected files that override built-in default endpoints before they fail
+				"global:\n  pagerduty_url: http://127.0.0.1:9/rejected\n  opsgenie_api_url: http://127.0.0.1:9/rejected\nroute:\n  receiver: undefined\nreceivers:\n- name: a\n",
+				"global:\n  pagerduty_url: http://127.0.0.1:9/rejected2\n  nosuchfield: 1\nroute:\n  receiver: a\nreceivers:\n- name: a\n"}).Draw(t, "garbage"))
 		case k < 8:
 			st.Content = []byte(gen.C17Config(t, gen.C17Opts{Breach: rapid.SampledFrom(c17ReloadBreaches).Draw(t, "breach")}).YAML)
 		case k < 9:
@@ -107,6 +112,10 @@ func c17ConfigHash(content []byte) float64 {
 type c17Sub struct {
 	calls   []*config.Config // configurations this subscriber was invoked with during the current step
 	applied string           // marker of the last configuration it accepted ("" = none)
+	cfg     *config.Config   // the configuration object it accepted last ...
+	text    string           // ... and its textual form at that moment
+	prevCfg *config.Config   // what it held before this step
+	prevTxt string
 }
 
 func c17ExecReload(sc c17ReloadScenario) (res pbt.Result) {
@@ -136,6 +145,7 @@ func c17ExecReload(sc c17ReloadScenario) (res pbt.Result) {
 			}
 			if c != nil && c.Route != nil {
 				s.applied = c.Route.Receiver
+				s.cfg, s.text = c, c.String()
 			} else {
 				s.applied = "<nil>"
 			}
@@ -176,6 +186,7 @@ func c17ExecReload(sc c17ReloadScenario) (res pbt.Result) {
 		for i, s := range subs {
 			before[i] = s.applied
 			s.calls = nil
+			s.prevCfg, s.prevTxt = s.cfg, s.text
 		}
 		order = nil
 		stepFail = st.Fail
@@ -190,6 +201,16 @@ func c17ExecReload(sc c17ReloadScenario) (res pbt.Result) {
 			}()
 			rerr = co.Reload()
 		}()
+		if len(res.Violations) > 0 {
+			return res
+		}
+		// "a rejected reload leaves the running configuration in force": the configuration object a subscriber
+		// is running with must still say what it said when it was applied, whatever was loaded (and rejected) since
+		for i, s := range subs {
+			if s.cfg != nil && s.cfg == s.prevCfg && s.cfg.String() != s.prevTxt {
+				res.Add(pbt.V("running-config-mutated", "step %d: the configuration subscriber %d is running with changed its textual form although it was not replaced (reload error: %v)", si, i, rerr))
+			}
+		}
 		if len(res.Violations) > 0 {
 			return res
 		}
